@@ -16,6 +16,8 @@ def wrap_and_run(lib, front, options=None, asan=False, keep=None):
     try:
         if front == "python":
             options = dict({"wrap_python": True, "wrap_c": False, "wrap_fortran": False, "PY_array_arg": "list"}, **(options or {}))
+        if front == "lua":
+            options = dict({"wrap_lua": True, "wrap_c": False, "wrap_fortran": False}, **(options or {}))
         ytext = xlib.to_yaml(lib, options)
         r = shroud_run.run_yaml(ytext, [], workdir=work, name="xlib")
         if r.status != "ok":
@@ -26,6 +28,10 @@ def wrap_and_run(lib, front, options=None, asan=False, keep=None):
             from . import pyfront
             res = pyfront.build_and_run(outd, lib, gen, asan=asan)
             res["expected"] = pyfront.expected_stream(lib)
+        elif front == "lua":
+            from . import luafront
+            res = luafront.build_and_run(outd, lib, gen, asan=asan)
+            res["expected"] = luafront.expected_stream(lib)
         else:
             res = drivers.build_and_run(outd, lib, gen, front, asan=asan)
             res["expected"] = xlib.expected_stream(lib, "fortran" if front == "fortran" else "c")
@@ -102,6 +108,9 @@ def describe(f):
 
 
 def the_plan(lib, front):
+    if front == "lua":
+        from . import luafront
+        return luafront.lua_plan(lib)
     if front == "python":
         from . import pyfront
         return pyfront.py_plan(lib)
@@ -178,7 +187,7 @@ def _job(job):
     plan = the_plan(lib, front)
     out = dict(idx=idx, ncalls=len(plan), problems=[], labels=[], nontrivial=[], sample=None)
     for site, op in enumerate(plan):
-        if op["kind"] == "del":
+        if op["kind"] in ("del",):
             out["labels"].append("op:del")
             continue
         f, k = op["f"], op["k"]
